@@ -1148,6 +1148,50 @@ def linkfail_cases(jobs):
     return out
 
 
+def fnext_self_cases(jobs):
+    """f.next from a method with self (C07 names f.next as the equivalent of call_next, from functions and from
+    methods with self): class K(OvldBase) with f(self, x: K2) delegating through self.f.next(x) to f(self, x: object)."""
+    import linecache
+
+    from ovld import OvldBase
+
+    from .observe import classify, describe
+
+    out = []
+    for job in jobs:
+        try:
+            log = []
+            K2 = type("K2", (), {"__module__": "vfworld"})
+            ns = {"LOG": log, "K2": K2, "OvldBase": OvldBase, "__name__": "vfworld"}
+            src = ("class Host(OvldBase):\n"
+                   "    def f(self, x: K2):\n        LOG.append(('m2', self))\n        return self.f.next(x)\n"
+                   "    def f(self, x: object):\n        LOG.append(('m1', self))\n        return 'm1'\n")
+            fname = f"<vf:fnself{job['id']}>"
+            linecache.cache[fname] = (len(src), None, src.splitlines(True), fname)
+            exec(compile(src, fname, "exec"), ns, ns)
+            inst = ns["Host"]()
+            obs = {"resolve": {"kind": "skip", "m": ""}}
+            try:
+                inst.f(K2())
+                obs["kind"] = "run"
+            except BaseException as e:  # noqa
+                obs["kind"] = classify(e)
+                obs["err"] = describe(e)
+                e.__traceback__ = None
+            call = {"pos": [{"c": 2}], "kwn": [], "kwa": []}
+            ent = []
+            for mid, slf in log:
+                ent.append({"m": mid, "call": call, "next": {"has": mid == "m2", "call": call if mid == "m2" else {"pos": [], "kwn": [], "kwa": []}}})
+            obs["entered"] = ent
+            obs["slf"] = "ok" if all(slf is inst for _, slf in log) else "bad"
+            for k in [k for k in linecache.cache if k.startswith("<ovld:") or k.startswith("<vf:")]:
+                del linecache.cache[k]
+            out.append({"id": job["id"], "call": call, "obs": obs})
+        except Exception:
+            out.append({"id": job["id"], "skip": "harness: " + traceback.format_exc()[-700:]})
+    return out
+
+
 def build_trace_cases(jobs):
     """Executions of the lazy build recorded as event traces for Trace_Build.tla.
     job = {id, world, threads:{A: call, B: call}, granularity, switches ('sweep1' | 'sweepab' | [[..]]),
